@@ -2762,6 +2762,14 @@ rfbProcessClientNormalMessage(rfbClientPtr cl)
 
 	rfbStatRecordMessageRcvd(cl, msg.type, sz_rfbPointerEventMsg, sz_rfbPointerEventMsg);
 	
+	if (cl->viewOnly) {
+	    /* the events of a view-only client never reach the application, so it
+	       must not take (or keep) the pointer and lock out the other clients */
+	    if (cl->screen->pointerClient == cl)
+		cl->screen->pointerClient = NULL;
+	    return;
+	}
+
 	if (cl->screen->pointerClient && cl->screen->pointerClient != cl)
 	    return;
 
